@@ -78,7 +78,8 @@ def run(ck, P):
                 def is_(tv):
                     at_, pol_ = EQ("t->type", tv)
                     return a.get(at_) is pol_ or a.get("(t->type == %d)" % tv) is True
-                if a.get("(t->flags & %d)" % AC) is not True or not (is_(E["M_SRC_TYPE_FD"]) or is_(E["M_SRC_TYPE_PS"])):
+                if a.get("(t->flags & %d)" % AC) is not True or not (is_(E["M_SRC_TYPE_FD"]) or is_(E["M_SRC_TYPE_PS"]) or
+                                                                     rules.assumed_one_of(a, "t->type", (E["M_SRC_TYPE_FD"], E["M_SRC_TYPE_PS"]))):
                     ok = False
             ok = ok and n > 0
             why = "auto-close descriptor of a PS/FD source (%d path(s))" % n if ok else "user descriptor closed without the AUTOCLOSE / PS|FD tests"
@@ -158,7 +159,7 @@ def run(ck, P):
           "m_ctx_fd duplicates the poll handle %d time(s) and returns %s" % (len(dfd), rets))
     cp = P.fn("create_priv_fd")
     helpers = {"create_timerfd", "create_signalfd", "create_inotifyfd", "create_pidfd", "create_eventfd"}
-    okc = all({e.fn.name for e in P.calls_to(h)} == {"create_priv_fd"} for h in helpers)
+    okc = all({e.fn.name for e in P.calls_to(h)} == {"create_priv_fd"} for h in helpers if P.by_name.get(h))   # (a helper folded into create_priv_fd is covered by the table above)
     cps = list(P.calls_to("create_priv_fd"))
     okc = okc and {e.fn.name for e in cps} == {"poll_set_new_evt"} and all(has(X.facts(e.fn, e), "(flag == %d)" % E["ADD"], True) or has(X.facts(e.fn, e), "flag", False) for e in cps)
     ck.ob("C20.2-WHO-OPENS", cp.site("only on ADD"), okc, "internal descriptors are created only by poll_set_new_evt(ADD): %s" % okc)
